@@ -92,6 +92,11 @@ pub fn programs(tier: Tier) -> ProgramSet {
             let label = format!("B{} disabled={{{}}}", n, dis.join(","));
             let (specs, _) = enumerate(&base, &label, &devs, k, &|s: &EnumSpec| {
                 // explicit discriminants must be unique (rustc) — computed with C06's rule
+                let has_data = s.variants.iter().any(|v| !v.kind.is_unit());
+                let has_explicit = s.variants.iter().any(|v| v.disc.is_some());
+                if has_data && has_explicit {
+                    return false; // rustc: needs a primitive repr
+                }
                 match super::c06::discriminants(s) {
                     Some(d) => {
                         let mut x = d.clone();
